@@ -32,6 +32,7 @@ Accept(e, c) ==
     [] e.op = "fmt" -> PropDebug(c, e)
     [] e.op = "default" -> PropDefault(c, e)
     [] e.op = "deref" -> PropDeref(c, e)
+    [] e.op = "into" -> PropInto(c, e)
     [] OTHER -> FALSE
 
 TraceInit == l = 1 /\ bad = <<>> /\ learned = <<>>
